@@ -10,13 +10,13 @@ CONSTANT Scope   \* "pairs": queues of 1-2 requests, full request alphabet
 mc_LTerms == <<1, 1, 2, 2, 2, 2, 2, 2>>
 \* follower logs of length <= 4: equal to the leader's prefix, diverging at index 2 / 3, shorter, empty
 mc_FLogs ==
-  IF Scope = "triples" THEN {<<1, 1>>, <<1, 2, 2, 2>>, <<1, 1, 1, 1>>}
-  ELSE IF Scope = "pairs-small" THEN {<<>>, <<1, 1>>, <<1, 2, 2, 2>>, <<1, 1, 1, 1>>}
+  IF Scope = "triples" THEN {<<1, 1>>, <<1, 2, 2, 2>>}
+  ELSE IF Scope = "pairs-small" THEN {<<>>, <<1, 1>>, <<1, 2, 2, 2>>}
   ELSE {<<>>, <<1>>, <<1, 1>>, <<1, 2>>, <<1, 1, 2>>, <<1, 2, 2, 2>>, <<1, 1, 1, 1>>, <<1, 1, 2, 2>>}
 mc_FCommits == IF Scope = "triples" THEN {0} ELSE IF Scope = "pairs-small" THEN {0} ELSE {0, 2}
 mc_MaxMerges == {2, 3}
 mc_Terms == IF Scope = "triples" THEN {2} ELSE {2, 3}
-mc_Prevs == IF Scope = "triples" THEN {0, 1, 2} ELSE IF Scope = "pairs-small" THEN {0, 1, 2, 3} ELSE {0, 1, 2, 3, 4}
+mc_Prevs == IF Scope = "triples" THEN {0, 1} ELSE IF Scope = "pairs-small" THEN {0, 1, 2} ELSE {0, 1, 2, 3, 4}
 mc_Shapes == {"hb", "one", "two", "gap"}
 mc_MinQ == IF Scope \in {"pairs", "pairs-small"} THEN 1 ELSE 3
 mc_MaxQ == IF Scope \in {"pairs", "pairs-small"} THEN 2 ELSE 3
